@@ -32,7 +32,7 @@ impl Adapter for RetryAd {
         json!({"hm": rng.below(4), "max": rng.below(5), "perReq": if rng.pct(30) { 1 } else { 0 }, "pred": *rng.pick(&["all", "noe2"]), "bo": bo,
                "b0": if bo == "rand" { 2 + 2 * rng.below(2) } else { 1 + rng.below(3) }, "cap": 4 + rng.below(5),
                "budget": if aimd { bmax } else { *rng.pick(&[-1i64, -1, 0, 1, 2, 3]) }, "bmax": if aimd { bmax } else { 3 },
-               "btype": if aimd { "aimd" } else { "tb" }, "ord": rng.below(12), "pre": rng.below(2), "alt": rng.below(2), "bctor": rng.below(3), "base": if rng.pct(40) { 1 + rng.below(3) } else { 0 }, "bmin": 1, "cost": 1 + rng.below(2), "amount": 1 + rng.below(2), "fnum": *rng.pick(&[0u64, 2, 3, 4])})
+               "btype": if aimd { "aimd" } else { "tb" }, "ord": rng.below(12), "pre": rng.below(2), "alt": rng.below(2), "sub": if bo == "fixed" && rng.pct(40) { 1 } else { 0 }, "bctor": rng.below(3), "base": if rng.pct(40) { 1 + rng.below(3) } else { 0 }, "bmin": 1, "cost": 1 + rng.below(2), "amount": 1 + rng.below(2), "fnum": *rng.pick(&[0u64, 2, 3, 4])})
     }
     fn build(&mut self, cfg: &Value, sim: &mut Sim) {
         let u = |k: &str| cfg[k].as_u64().unwrap();
@@ -48,9 +48,13 @@ impl Adapter for RetryAd {
             steps.push(Box::new(|b: B| b.retry_on(|_e: &IErr| true)));
         }
         let (bo, b0, cap, alt) = (cfg["bo"].as_str().unwrap().to_string(), u("b0"), u("cap"), cfg["alt"].as_u64().unwrap_or(0) == 1);
+        // cfg.sub = 1: the fixed delay is given 100 us short of b0 ms; the timer (millisecond resolution, rounding up)
+        // still fires b0 ms later, so the specification's delay is unchanged - but a delay below 1 ms is a delay
+        let sub = cfg["sub"].as_u64().unwrap_or(0) == 1;
         steps.push(Box::new(move |b: B| {
             if bo == "fixed" {
-                if alt { b.fixed_backoff(Duration::from_millis(b0)) } else { b.backoff(FixedInterval::new(Duration::from_millis(b0))) }
+                let d = if sub { Duration::from_micros(b0 * 1000 - 100) } else { Duration::from_millis(b0) };
+                if alt { b.fixed_backoff(d) } else { b.backoff(FixedInterval::new(d)) }
             } else if bo == "rand" {
                 b.backoff(ExponentialRandomBackoff::new(Duration::from_millis(b0), 0.5).max_interval(Duration::from_millis(cap)))
             } else {
